@@ -93,3 +93,28 @@ fn c14_filter_step_matches_cited_svf() {
 	kani::cover!(x != 0.0 && s1 != 0.0, "w:non-trivial");
 	std::mem::forget(fx);
 }
+
+// @h prop=C13 tier=quick kind=main timeout=900
+// @bounds fully wet, all four modes, coefficients at 1 kHz / 48 kHz; input and integrator state small integers |v| <= 4: the step applied to (-x, -state) gives exactly the negated result, and applied to (2x, 2 state) exactly the doubled result (output and new state)
+// @funcs Filter::process
+// @assume f64::tan replaced by its native value
+// @catches a non-linear term slipping into the filter (a clamp, an offset, a rectification, state-dependent coefficients): homogeneity f(-x) = -f(x), f(2x) = 2 f(x) is the part of superposition that floats satisfy exactly
+#[kani::proof]
+#[kani::unwind(3)]
+#[kani::stub(f64::tan, kv_tan_const)]
+fn c13_filter_is_homogeneous() {
+	let sm = || { let v: i8 = kani::any(); kani::assume(v >= -4 && v <= 4); v as f32 };
+	let (x, s1, s2) = (sm(), sm(), sm());
+	let mode = kv_mode();
+	let neg: bool = kani::any();
+	let k = if neg { -1.0f32 } else { 2.0f32 };
+	let mut a = kv_filter(mode, 1.0, Frame::from_mono(s1), Frame::from_mono(s2));
+	let mut b = kv_filter(mode, 1.0, Frame::from_mono(s1 * k), Frame::from_mono(s2 * k));
+	let ya = kv_run(&mut a, Frame::from_mono(x));
+	let yb = kv_run(&mut b, Frame::from_mono(x * k));
+	assert!(yb.left == ya.left * k, "scaling the input and the state scales the output by the same factor");
+	assert!(b.ic1eq.left == a.ic1eq.left * k && b.ic2eq.left == a.ic2eq.left * k, "and the new state");
+	kani::cover!(neg && x != 0.0, "w:negated");
+	kani::cover!(!neg && s1 != 0.0, "w:doubled");
+	std::mem::forget(a); std::mem::forget(b);
+}
